@@ -76,4 +76,16 @@ def nN (ids : List String) (H V : Int) : Outcome (List String) :=
   | some es =>
     .ok ((nNE es H V).map Ext.id)
 
+/-! ### the stencils of the neighbourhood queries (used by the theorems of C08 and by the line model) -/
+abbrev Off := Int × Int × Int
+def sh (e : Ext) (o : Off) : Ext := shiftE e o.1 o.2.1 o.2.2
+
+/-- the three stencils, in the order in which the Go loops emit them -/
+def stencil6 : List Off := [(-1,0,0), (0,-1,0), (0,0,-1), (1,0,0), (0,1,0), (0,0,1)]
+def stencil8 : List Off := [(-1,0,0), (0,-1,0), (-1,-1,0), (-1,1,0), (1,0,0), (0,1,0), (1,1,0), (1,-1,0)]
+def stencil26 : List Off :=
+  [(0,0,-1)] ++ stencil8.map (fun o => (o.1, o.2.1, -1)) ++ stencil8 ++
+  [(0,0,1)] ++ stencil8.map (fun o => (o.1, o.2.1, 1))
+
+
 end SpatialId
